@@ -13,7 +13,7 @@ Record fraw := { fr_name : rstr; fr_pkg : N; fr_accessible : bool; fr_generic : 
                  fr_recv : option ty }.             (* struct method: type of the receiver *)
 
 Definition sig_fn (f : fraw) : fn :=
-  {| accessible := fr_accessible f; is_func := true; type_params := fr_generic f;
+  {| accessible := fr_accessible f; is_func := true; variadic := false; type_params := fr_generic f;
      params := map fp_sig (fr_params f);
      results := map (fun r => match r with None => RErr | Some _ => ROther end) (fr_results f) |}.
 
